@@ -13,7 +13,7 @@
 
    Domain note: [lower_tt] (lib/Lower.v) is to_lowercase on ASCII, Latin-1, basic Cyrillic and Greek capitals except sigma; token_type spellings with other cased letters
    are outside the model (and outside the generators). *)
-From OA Require Import Bytes Json Lower ErrorCodes.
+From OA Require Import UrlTypes Bytes Json Lower ErrorCodes.
 From Coq Require Import ZArith.
 Local Open Scope Z_scope.
 
@@ -143,6 +143,22 @@ Arguments ef_names {EF}. Arguments ef_decode {EF}. Arguments ef_encode {EF}.
 (* EmptyExtraTokenFields / EmptyExtraDeviceAuthorizationFields *)
 Definition ef_empty : ef_schema unit :=
   {| ef_names := []; ef_decode := fun _ => Some tt; ef_encode := fun _ => [] |}.
+
+(* a MAP-typed extension (BTreeMap<String, serde_json::Value> behind #[serde(flatten)]): it is handed
+   every member the outer struct does not know; observed as the sorted set of their names *)
+Fixpoint insert_sorted (x : bytes) (l : list bytes) : list bytes :=
+  match l with
+  | [] => [x]
+  | y :: l' =>
+      match bytes_cmp x y with
+      | Lt => x :: l
+      | Eq => l
+      | Gt => y :: insert_sorted x l'
+      end
+  end.
+Definition sorted_names (m : obj) : list bytes := fold_right insert_sorted [] (map fst m).
+Definition ef_map : ef_schema (list bytes) :=
+  {| ef_names := []; ef_decode := fun m => Some (sorted_names m); ef_encode := fun _ => [] |}.
 
 (* the extension type used by the harness:
      struct Ext { id_token: Option<String>, x_num: Option<u64> }   (both skip_serializing_if none) *)
